@@ -573,7 +573,7 @@ class FieldValueComponentStringEnum(FieldValueComponentKeyValueBase):
         try:
             parser.parse_parsable('value', cls._get_value_type())
         except InvalidValue as e:
-            six.raise_from(InvalidValue(e.value.decode('ascii'), cls, 'value'), e)
+            six.raise_from(InvalidValue(bytes(e.value).decode('ascii', 'replace'), cls, 'value'), e)
 
     def _get_value_as_simple_type(self):
         return self.value.value.code
@@ -1028,7 +1028,7 @@ class FieldValueStringEnum(FieldValueSingleComplexBase):
         try:
             value = cls._get_value_type().parse_exact_size(parsable)
         except InvalidValue as e:
-            six.raise_from(InvalidValue(six.ensure_text(parsable, 'ascii'), cls, 'value'), e)
+            six.raise_from(InvalidValue(bytes(parsable).decode('ascii', 'replace'), cls, 'value'), e)
 
         return cls(value), len(parsable)
 
